@@ -5,7 +5,7 @@ import "verif/mc/runner"
 func init() {
 	add(&runner.Spec{
 		Prop: "C03",
-		Rule: "(a) every type of the run-time grammar (as C01, plus chan/func/complex members) x every value with at most D non-default positions over domains that include NaN, +-Inf (both float widths) and 15 ill-formed json.Number texts x 3 placements x 36 entry-point/option combinations (all subsets of DisableHTMLEscape, DisableNormalizeUTF8, UnorderedMap on MarshalWithOption, MarshalIndentWithOption, MarshalContext, Encoder.EncodeWithOption; Marshal, MarshalIndent, MarshalNoEscape, Encoder+indent); (b) Marshaler / context Marshaler / RawMessage / json.Number / TextMarshaler members returning every byte string over the 27-symbol alphabet up to length 3 (quick) / 4 (thorough) and every number-alphabet string two symbols longer, in 16 positions x 5 entry points, plus every single-byte edit of every depth-1 grammar text in 3 positions x 2 entry points. Success must yield exactly one RFC 8259 value (valid UTF-8 while normalisation is on); whatever encoding/json refuses must be refused.",
+		Rule: "(a) every type of the run-time grammar (as C01, plus chan/func/complex members) x every value with at most D non-default positions over domains that include NaN, +-Inf (both float widths) and 15 ill-formed json.Number texts x 3 placements x 36 entry-point/option combinations (all subsets of DisableHTMLEscape, DisableNormalizeUTF8, UnorderedMap on MarshalWithOption, MarshalIndentWithOption, MarshalContext, Encoder.EncodeWithOption; Marshal, MarshalIndent, MarshalNoEscape, Encoder+indent); (b) Marshaler / context Marshaler / RawMessage / json.Number / TextMarshaler members returning every byte string over the 27-symbol alphabet up to length 3 (quick) / 4 (thorough) and every number-alphabet string two symbols longer, in 16 positions x 5 entry points, plus every single-byte edit of every depth-1 grammar text in 3 positions x 2 entry points. (c) c03.sizes: seven carriers (byte slice, strings, RawMessage, []int, marshaler text, map value) of EVERY size up to 1200 (thorough 4200) bytes, alone and behind 0/500/1000 leading bytes, from empty buffer pools and from the grown buffer, 5 entry points. Success must yield exactly one RFC 8259 value (valid UTF-8 while normalisation is on); whatever encoding/json refuses must be refused.",
 		StatesAre: "distinct (position, failure kind) outcomes",
 		Assume: append([]string{
 			"the RFC 8259 recogniser decides well-formedness of outputs; encoding/json's refusal decides which values are unrepresentable",
@@ -15,6 +15,7 @@ func init() {
 				{Harness: "c03.types", Mode: "plain", Shards: 16},
 				{Harness: "c03.bytes", Mode: "plain", Shards: 16},
 				{Harness: "c03.utf8", Mode: "plain", Shards: 16},
+				{Harness: "c03.sizes", Mode: "shim", Shards: 16},
 			}
 		},
 	})
